@@ -16,7 +16,7 @@ PROP = 'C18'
 
 
 def imports():
-    core.import_phylib('phylib.utils._misc')
+    core.import_phylib('phylib.utils._misc', 'phylib.io.model')
 
 
 # ---------------------------------------------------------------------------
@@ -196,7 +196,7 @@ def run_json(case, acc, order):
                      vn.startswith('dict') for _, vn in case['entries']) or \
         any(key_kind(k) != 'str' for k, _ in case['entries'])
     with core.Scratch() as d:
-        path = d / 'sub' / 'f.json'
+        path = d / 'sub' / 'deeper' / 'f.json'      # two directory levels that do not exist yet
         try:
             # the file already exists with other, longer content: a save replaces it entirely
             save_json(path, {'zzz': list(range(40)), 'k': 'x' * 300})
@@ -372,7 +372,7 @@ def run_table(case, acc, order):
     nontrivial = bool(cellset & {'s_comma', 's_tab', 's_q', 's_quote', 'absent', 's_empty',
                                  'f1e_7', 'fneg'})
     with core.Scratch() as d:
-        path = d / ('t.' + case['ext'])
+        path = d / 'tables' / 'new' / ('t.' + case['ext'])     # (missing directories are created)
         try:
             kwargs = {}
             if case['first'] is not None:
@@ -455,6 +455,11 @@ def run_simple(case, acc, order):
             _read_tsv_simple(path)
             _write_tsv_simple(path, 'f', data)
             back = _read_tsv_simple(path)
+            # the model-level reader of the same file: {field: {id: value}}, every id present
+            from phylib.io.model import load_metadata
+            md = load_metadata(path)
+            if data and not (isinstance(md, dict) and list(md) == ['f'] and deep_equal(md['f'], data)):
+                back = ('load_metadata', md)
         except Exception as e:
             back = e
     sig = None
